@@ -740,6 +740,38 @@ func (w *World) opCompactRaced() {
 	w.opCompact(1)
 }
 
+// opResetCompact: the local state is reset at run time (the monitor's auto-recovery after a local
+// LTX error: ResetLocalState removes the local level-0 files and re-fetches the replica's newest one
+// as the baseline) while level 1 lags level 0 by several transactions; after one more sync, Compact(1)
+// must continue where level 1 ended, whatever the LOCAL directory still holds. For the model the
+// reset changes nothing in the replica: sync, sync, sync, Compact(1).
+func (w *World) opResetCompact() {
+	for i := 0; i < 2 && len(w.violations) == 0; i++ {
+		w.opSync()
+	}
+	if len(w.violations) > 0 {
+		return
+	}
+	ctx, cancel := context.WithTimeout(ctxb, 30*time.Second)
+	defer cancel()
+	before := w.pos()
+	if err := w.ldb.ResetLocalState(ctx); err != nil {
+		w.violate("harness/reset-local-state", err.Error())
+		return
+	}
+	if after := w.pos(); after != before {
+		w.violate("C06/position-moved-by-local-reset", fmt.Sprintf("ResetLocalState with the replica at TXID %d left the database at TXID %d", before, after))
+		return
+	}
+	w.trace = append(w.trace, "reset-local-state")
+	w.counts["compactions_after_local_reset"]++
+	w.opSync()
+	if len(w.violations) > 0 {
+		return
+	}
+	w.opCompact(1)
+}
+
 func l0rStr(l []tval) string {
 	if l == nil {
 		return "off"
@@ -1525,6 +1557,8 @@ func runHistory(dir string, rng *rand.Rand, steps int, start time.Time, index in
 		case k < 48:
 			if focus == "c06" && rng.Intn(12) == 0 {
 				w.opCompactRaced()
+			} else if (focus == "c06" || focus == "c07") && rng.Intn(10) == 0 {
+				w.opResetCompact()
 			} else {
 				w.opCompact(1 + pickLevel(rng, w.nlv))
 			}
